@@ -42,9 +42,19 @@ type stream struct {
 }
 
 type script struct {
-	Raw string
-	Re  *regexp.Regexp // matches the templated text of this script whatever the template values are
+	Raw  string
+	Toks []ttok // token pattern of the script: matches its templated text whatever the template values are
 }
+
+// ttok is one element of a script's token pattern.
+type ttok struct {
+	wild bool           // a whole placeholder: any (short) run of tokens, also none
+	kind string         // token kind otherwise
+	val  string         // exact value, or
+	re   *regexp.Regexp // value pattern when a placeholder sits inside a string literal / identifier
+}
+
+const sentinel = "ZZPLACEHOLDERZZ"
 
 var placeholder = regexp.MustCompile(`\{\{\.\w+\}\}`)
 
@@ -81,22 +91,69 @@ func splitScripts(text string) []string {
 	return out
 }
 
+// mkStream cuts a file into scripts and turns every script into a token pattern: the template placeholders are
+// replaced by a sentinel word before tokenising, so a placeholder that stands alone becomes a wildcard for a run of
+// tokens ({{.OnCluster}} → ON CLUSTER `c`, or nothing) and one inside a literal ('{{.DB}}') a wildcard inside it.
+// Executed statements are compared token by token — layout, comments and a trailing ';' do not matter.
 func mkStream(k int, file, text string, dist bool) *stream {
 	st := &stream{K: k, File: file, Dist: dist}
 	for _, raw := range splitScripts(text) {
-		parts := placeholder.Split(raw, -1)
-		var b strings.Builder
-		b.WriteString(`^\s*`)
-		for i, p := range parts {
-			if i > 0 {
-				b.WriteString(`[^\n]*?`)
-			}
-			b.WriteString(regexp.QuoteMeta(p))
+		toks, err := fakeconn.Tokens(placeholder.ReplaceAllString(raw, sentinel))
+		if err != nil {
+			ev.Fatal("%s: cannot tokenise script %q: %v", file, raw, err)
 		}
-		b.WriteString(`\s*;?\s*$`)
-		st.Scripts = append(st.Scripts, script{Raw: raw, Re: regexp.MustCompile(b.String())})
+		sc := script{Raw: raw}
+		for _, t := range toks {
+			switch {
+			case t.Kind == "ident" && t.Val == sentinel:
+				sc.Toks = append(sc.Toks, ttok{wild: true})
+			case strings.Contains(t.Val, sentinel):
+				parts := strings.Split(t.Val, sentinel)
+				for i := range parts {
+					parts[i] = regexp.QuoteMeta(parts[i])
+				}
+				sc.Toks = append(sc.Toks, ttok{kind: t.Kind, re: regexp.MustCompile("^" + strings.Join(parts, ".*") + "$")})
+			default:
+				sc.Toks = append(sc.Toks, ttok{kind: t.Kind, val: t.Val})
+			}
+		}
+		st.Scripts = append(st.Scripts, sc)
 	}
 	return st
+}
+
+const maxWild = 24 // tokens one placeholder may stand for
+
+// matchToks: does the executed token sequence fit the pattern?
+func matchToks(pat []ttok, toks []fakeconn.Tok) bool {
+	memo := map[[2]int]bool{}
+	var rec func(i, j int) bool
+	rec = func(i, j int) bool {
+		if i == len(pat) {
+			return j == len(toks)
+		}
+		k := [2]int{i, j}
+		if v, ok := memo[k]; ok {
+			return v
+		}
+		res := false
+		p := pat[i]
+		if p.wild {
+			for n := 0; n <= maxWild && j+n <= len(toks) && !res; n++ {
+				res = rec(i+1, j+n)
+			}
+		} else if j < len(toks) {
+			t := toks[j]
+			// a placeholder may render an identifier quoted or bare; everything else must be the same token
+			sameKind := t.Kind == p.kind || (p.re != nil && (t.Kind == "ident" || t.Kind == "qident") && (p.kind == "ident" || p.kind == "qident"))
+			if sameKind && ((p.re == nil && t.Val == p.val) || (p.re != nil && p.re.MatchString(t.Val))) {
+				res = rec(i+1, j+1)
+			}
+		}
+		memo[k] = res
+		return res
+	}
+	return rec(0, 0)
 }
 
 var streams = map[int]*stream{
@@ -117,9 +174,11 @@ func candidates(s *stream, sql string) []int {
 		return v.([]int)
 	}
 	var cand []int
-	for j := range s.Scripts {
-		if s.Scripts[j].Re.MatchString(sql) {
-			cand = append(cand, j)
+	if toks, err := fakeconn.Tokens(sql); err == nil {
+		for j := range s.Scripts {
+			if matchToks(s.Scripts[j].Toks, toks) {
+				cand = append(cand, j)
+			}
 		}
 	}
 	candCache.Store(ck, cand)
@@ -212,20 +271,71 @@ func isInjected(err error) bool {
 	return errors.As(err, &ie)
 }
 
-// bookkeeping statements of update.go/shared.go that are not migration scripts
+// The `ver` table is the on-disk state of the updater ("highest applied script index per stream k"); statements are
+// classified by what they do to it, not by their text:
+
+// verTableDDL: creation of `ver` itself or of a Distributed table over it.
+func verTableDDL(e *fakeconn.Entry) bool {
+	st := e.Stmt
+	if st == nil || st.Kind != "create_table" {
+		return false
+	}
+	return st.Name.Name == "ver" || (st.Engine == "Distributed" && len(st.EngineArgs) >= 3 && st.EngineArgs[2] == "ver")
+}
+
+// versionLookup: a SELECT that reads `ver` (directly or through a Distributed table) for one stream k.
+func versionLookup(e *fakeconn.Entry) (int, bool) {
+	if e.Stmt == nil || e.Stmt.Kind != "select" || e.Target != "ver" {
+		return 0, false
+	}
+	if v, ok := e.Stmt.WhereEq("k"); ok {
+		k, err := strconv.Atoi(v)
+		return k, err == nil
+	}
+	return 0, false
+}
+
+// versionWrite: an INSERT of a row (k, ver) into `ver`.
+func versionWrite(e *fakeconn.Entry) (k, n int, ok bool) {
+	if e.Stmt == nil || e.Stmt.Kind != "insert" || e.Target != "ver" {
+		return 0, 0, false
+	}
+	kv, ok1 := e.Stmt.InsertValue("k")
+	nv, ok2 := e.Stmt.InsertValue("ver")
+	k, err1 := strconv.Atoi(kv.Text)
+	n, err2 := strconv.Atoi(nv.Text)
+	return k, n, ok1 && ok2 && err1 == nil && err2 == nil
+}
+
+// bookkeeping statements (database creation, reads, the `ver` table) are not migration scripts
 func bookkeeping(e *fakeconn.Entry) bool {
 	if e.Stmt == nil {
 		return false
 	}
-	switch e.Stmt.Kind {
-	case "create_database", "show_create_database", "select_max_ver", "show_tables", "select_count":
+	if e.Stmt.IsRead() || e.Stmt.Kind == "create_database" || verTableDDL(e) {
 		return true
-	case "create_table":
-		return e.Stmt.Name.Name == "ver" || e.Stmt.Name.Name == "ver_dist"
-	case "insert":
-		return e.Stmt.Name.Name == "ver"
 	}
-	return false
+	return e.Stmt.Kind == "insert" && e.Target == "ver"
+}
+
+// attribute finds the stream and the candidate script indices of an executed statement: the stream whose version was
+// looked up last if one of its scripts matches, else the only stream that has a matching script.
+func attribute(curK int, sql string) (int, []int) {
+	if s := streams[curK]; s != nil {
+		if c := candidates(s, sql); len(c) > 0 {
+			return curK, c
+		}
+	}
+	found, k := []int(nil), 0
+	for kk := 1; kk <= 6; kk++ {
+		if c := candidates(streams[kk], sql); len(c) > 0 {
+			if found != nil {
+				return 0, nil // ambiguous between streams: not attributable
+			}
+			found, k = c, kk
+		}
+	}
+	return k, found
 }
 
 // execute runs ctrl.Init once on a copy of (st, done) with the given faults and evaluates the per-run oracle.
@@ -249,16 +359,14 @@ func execute(cfg ctrlrun.Config, st0 *fakeconn.State, done0 *completed, plan []f
 		if e.Stmt == nil {
 			continue
 		}
-		if e.Stmt.Kind == "select_max_ver" {
-			curK, _ = strconv.Atoi(e.Stmt.WhereVal)
+		if k, ok := versionLookup(e); ok {
+			curK = k
 			continue
 		}
 		if e.IsQuery {
 			continue
 		}
-		if e.Stmt.Kind == "insert" && e.Stmt.Name.Name == "ver" && e.Applied {
-			k, _ := strconv.Atoi(e.Stmt.InsVals[0].Text)
-			n, _ := strconv.Atoi(e.Stmt.InsVals[1].Text)
+		if k, n, ok := versionWrite(e); ok && e.Applied {
 			s := streams[k]
 			if s == nil || n > len(s.Scripts) {
 				r.findings = append(r.findings, finding{fmt.Sprintf("version_recorded_for_unknown_script:k%d", k),
@@ -278,14 +386,12 @@ func execute(cfg ctrlrun.Config, st0 *fakeconn.State, done0 *completed, plan []f
 			continue
 		}
 		// a migration script is being executed
-		s := streams[curK]
-		if s == nil {
-			continue
-		}
-		cand := candidates(s, e.SQL)
+		sk, cand := attribute(curK, e.SQL)
 		if len(cand) == 0 {
-			continue // not a script of this stream (e.g. Cleanup statements): not attributable
+			continue // not a script of any stream (e.g. Cleanup statements): not attributable
 		}
+		s := streams[sk]
+		curK := sk
 		r.scripts++
 		j := cand[len(cand)-1]
 		for _, c := range cand { // identical texts: the first not yet completed one, else the last
@@ -462,7 +568,7 @@ func stmtKind(e *fakeconn.Entry) string {
 	if e.Stmt == nil {
 		return "unparsed"
 	}
-	if e.Stmt.Kind == "insert" && e.Stmt.Name.Name == "ver" {
+	if _, _, ok := versionWrite(e); ok {
 		return "version_insert"
 	}
 	if bookkeeping(e) {
